@@ -318,6 +318,20 @@ fn random_history(src: &mut Src, obs: &mut Obs) -> Res {
         };
         history.push(json!({"path": path, "value": newv.to_value()}));
         obs.eval(1);
+        if s == 0 {
+            // (these queries contain no name selectors, so every step comes from the document and
+            // the open finding about selector text in paths does not apply)
+            for (p, l) in paths.iter().zip(&locs) {
+                if let Some(l) = l {
+                    if *p != normalized_path(l) {
+                        return Err(Failure::new(
+                            "a path returned by a query does not lead back to the node it was reported for (it is not that node's location)",
+                            json!({"doc": v0, "query": qtext, "reported_path": p, "node": normalized_path(l)}),
+                        ));
+                    }
+                }
+            }
+        }
         // where the path leads in the *current* model (earlier writes may have removed the location)
         let strict_target = if model.get_loc(&loc).is_some() && normalized_path(&loc) == *path { Some(loc.clone()) } else { None };
         let k3_target = k3_model(&model, path);
